@@ -688,7 +688,7 @@ let suite_lock (line : string) : string =
             | 'X' ->
                 let w', o = step0 !w (AClose (name_id body)) in
                 w := w'; show_out o
-            | 'Z' ->
+            | 'Z' | 'Y' ->
                 (* close while the background thread is parked: nobody gets in before the close
                    has returned *)
                 let w', o = step0 !w (AClose (name_id body)) in
